@@ -66,6 +66,18 @@ var freeList = []freeEntry{
 		why: "surplus trailing row of the extension's challenge response is ignored (the first kappa rows are checked)"},
 	{scenarioPrefix: "dkls23", round: "DKLS23SignRound3", class: "/mulR1/OtR1/u[]", op: "extend",
 		why: "surplus trailing row of the extension's correlation message is ignored"},
+	// DKLs23 with the batched base OT (thorough tier): round 2 is nothing but the OT RECEIVER's
+	// message phi of the endemic OT (ecbbot): every pair of group elements is a valid receiver message -
+	// a receiver that sends other points than it programmed merely loses its own OT outputs, its own
+	// multiplication check then fails and it releases nothing (the deviator's verdict is not read; the
+	// honest sender cannot and need not notice; no signature is assembled without the deviator's
+	// partial signature, S3 still applies to whatever is released).
+	{scenarioPrefix: "dkls23-bbot", round: "DKLS23SignBBOTRound2", class: "/mulR2/OtR2/phi/*",
+		why: "receiver message of an endemic (random) OT: any group element is a legitimate choice of the sender of this message"},
+	{scenarioPrefix: "dkls23-bbot", round: "DKLS23SignBBOTRound2", class: "<whole>",
+		why: "the whole round-2 message is the OT receiver's phi (see above): another party's / session's phi is as legitimate as its own"},
+	{scenarioPrefix: "dkls23-bbot", round: "DKLS23SignBBOTRound3", class: "/psi*",
+		why: "as DKLS23SignRound4 /psi of the SoftSpoken variant: bound only through the aggregator's final verification"},
 	{scenarioPrefix: "dkls23", round: "DKLS23SignRound4", class: "/psi*",
 		why: "psi is bound only through the aggregator's final verification (DKLs23 design: the recipient cannot check it locally); the verdict 'detected by the aggregator' is the designed detection point"},
 	// Hand-over to a disjoint holder set without trusted anchors (README "Identifiable Abort"): a
